@@ -70,3 +70,33 @@ def _c03_shared(sub: dict, params: dict) -> bool:
     tr = RefMap.from_stored(sub["ranges"], sub["inverted"]).triples
     t = sub["token"]
     return any(a[0] + a[1] == b[0] and b[0] in (t, t + 1) for a, b in zip(tr, tr[1:]))
+
+
+@predicate("c11_fit_gives_up_with_payload")
+def _c11_fit_gives_up(sub: dict, params: dict) -> bool:
+    """Call-site identification: the request carries a non-empty payload (it is not a pure deletion) and the
+    library's fitting (`replace_step`, reached through the operation) records no step for it - upstream
+    documents that fitting may find 'no meaningful way to insert the slice'. Pure deletions never match."""
+    if sub.get("mode") != "c11":
+        return False
+    op = sub["op"]
+    if op["op"] in ("delete", "delete_range"):
+        return False
+    if not (op.get("slice", {}).get("c") or op.get("content") or op.get("node")):
+        return False
+    from prosemirror.transform import Transform
+
+    from .gen import ops as go
+    from .gen import schemas
+    from .ref import plain as P
+
+    lib, _rs = schemas.get(sub["schema"])
+    tr = Transform(P.build(lib, sub["doc"]))
+    o = dict(op)
+    if o["op"] == "replace_step":
+        o["op"] = "replace"
+    try:
+        go.apply_op(tr, lib, o)
+    except Exception:  # noqa: BLE001
+        return False
+    return not tr.steps
